@@ -21,6 +21,18 @@ class ToolError(Exception):
     """The machinery failed (TLC crash, build failure, vacuous run...): exit 2."""
 
 
+class HarnessCrash(Exception):
+    """A harness process that runs the real code in-process died (panic exit 101, abort, segfault...).  A crash of
+    the code under test is data, not a tool error: it is reported as a violation.  Harnesses use exit code 2 for
+    their own troubles (cannot bind a port, missing input...), which stays a tool error."""
+
+    def __init__(self, cmd, code, tail):
+        super().__init__("harness crashed (%s): %s" % (code, " ".join(cmd)))
+        self.cmd = cmd
+        self.code = code
+        self.tail = tail
+
+
 class Ctx:
     def __init__(self, prop, tier, seed):
         self.prop = prop
@@ -200,6 +212,8 @@ def tlc_pipe(ctx, module, cfg, name, consumer_cmd, timeout=1800, xmx="8g", worke
     parsed["exit"] = tlc.returncode
     parsed["consumer_exit"] = cons.returncode
     parsed["cmd"] = " ".join(cmd)
+    if cons.returncode not in (0, 2):
+        raise HarnessCrash(consumer_cmd, cons.returncode, ["(the replayer died while executing TLC-generated behaviours; see %s)" % ctx.work])
     return parsed, text
 
 
@@ -272,8 +286,11 @@ def run_harness(ctx, cmd, timeout=1800, stdin=None, env=None):
                            text=True, stdin=stdin, env=e)
     except subprocess.TimeoutExpired:
         raise ToolError("harness timed out: %s" % " ".join(cmd))
-    if p.returncode not in (0,):
+    if p.returncode == 2:
         raise ToolError("harness failed (%d): %s\n%s" % (p.returncode, " ".join(cmd), (p.stdout + p.stderr)[-4000:]))
+    if p.returncode != 0:
+        lines = [l for l in (p.stdout + p.stderr).splitlines() if l.strip() and not l.startswith("  ") and "stack backtrace" not in l]
+        raise HarnessCrash(cmd, p.returncode, lines[-12:])
     return p.stdout
 
 
